@@ -14,12 +14,9 @@ ID = "C17"
 LEVEL = "model_checking"
 MIN_OUTCOMES = 3
 MANIFEST = {
-    "text": "All BUILD ids of 1..5 digits (quick) / 1..7 digits (thorough) including zero-padded ones take one real bump each "
-    "(edge invariant over every state of a digit class is inductive for chains inside the class); complete chains of "
-    "2,000 (quick) / 10,000 (thorough) bumps from 40 starts confirm the digit-length crossings; BUILD alone, BLD, and "
-    "BUILD inside vYYYY0M.BUILD[-TAG] are all driven through the `test` command body.",
-    "note": "ids longer than 7 digits are not enumerated; all-9 ids are the documented maximum and only required to be refused",
-    "technique": "explicit-state exploration of the deterministic BUILD successor system on the real code, all states of a digit class + full chains",
+    'text': 'All BUILD ids of 1..5 digits (quick) / 1..7 digits (thorough) including zero-padded ones take one real bump each (edge invariant over every state of a digit class is inductive for chains inside the class); every 37th id also under five flag sets (--pin-increments/--pin-date/--tag/date changes); complete chains of 2,000 / 10,000 bumps from 40 starts confirm the digit-length crossings; `update` chains behind a stale VCS tag; BUILD alone, BLD, and BUILD inside vYYYY0M.BUILD[-TAG] are driven through the real command bodies.',
+    'note': 'ids longer than 7 digits are not enumerated; all-9 ids are the documented maximum and only required to be refused',
+    'technique': 'explicit-state exploration of the deterministic BUILD successor system on the real code, all states of a digit class + full chains',
 }
 RULE = (
     "one case = one start id (every digit string of the stated lengths) or one chain step; distinct = distinct "
